@@ -66,7 +66,7 @@ def bounds(tier):
         "rewrites_per_pass": "<=3 (all configurations for <=2; seed-chosen subset of 3)" if tier == "quick"
         else "<=3 (all), 4 (seed-chosen subset)",
         "rule_groups": 2,
-        "transaction_ids": "{default, 0, 1}",
+        "transaction_ids": "{default, 0, 1}; {0, 1, 2} in every yield order for three rewrites of one rule",
         "range_endpoints": "all integers lo <= a <= b <= hi inside a 3-line literal body (symbolic)",
         "layouts": "with and without an ignore-annotated line",
     }
@@ -87,6 +87,18 @@ def _configs(n):
             if texts[0] != "A":
                 continue  # renaming symmetry of tokens
             out.append([(g, t, x) for (g, t), x in zip(assign, texts)])
+    return out
+
+
+def _configs_three_numbers():
+    """One rule, three rewrites with the transaction numbers 0, 1, 2 in every yield order (a duplicate pair with a
+    third transaction numbered in between is only expressible with three numbers)."""
+    out = []
+    for perm in itertools.permutations((0, 1, 2)):
+        for texts in itertools.product("AB", repeat=3):
+            if texts[0] != "A":
+                continue
+            out.append([(0, t, x) for t, x in zip(perm, texts)])
     return out
 
 
@@ -202,15 +214,23 @@ def ob_schedule(cfg, annotated, e2e=True, budget_s=100.0):
             why += [ov(R[i], R[j]) for i, j in itertools.combinations(ms, 2)]  # overlaps itself
             why += [z3.And(R[i][0] <= le, ls <= R[i][1]) for i in ms for (ls, le, ann) in lines if ann]
             for u in txns:
-                if u == t or not _precedes(u, t):
+                if u == t:
                     continue
                 mu = members[u]
-                why += [ov(R[i], R[j]) for i in ms for j in mu]  # overlaps a transaction with precedence
+
                 # duplicates it: same set of (range, text)
                 def sub(xs, ys):
                     return z3.And(*[z3.Or(*[z3.And(R[i][0] == R[j][0], R[i][1] == R[j][1])
                                             for j in ys if cfg[j][2] == cfg[i][2]] or [z3.BoolVal(False)])
                                     for i in xs])
+
+                if not _precedes(u, t):
+                    # which of two identical transactions is the one that was 'dropped' cannot be told from the
+                    # applied rewrites: a duplicate of an *accepted* transaction counts as that transaction
+                    if any(e[0] == u for e in entries):
+                        why.append(z3.And(sub(ms, mu), sub(mu, ms)))
+                    continue
+                why += [ov(R[i], R[j]) for i in ms for j in mu]  # overlaps a transaction with precedence
                 why.append(z3.And(sub(ms, mu), sub(mu, ms)))
             reasons.append(z3.Or(*why) if why else z3.BoolVal(False))
         props["dropped_only_for_reason"] = z3.And(*reasons) if reasons else True
@@ -415,6 +435,9 @@ def obligations(tier, seed):
                 obs.append(Obligation("sched/%s/%s" % (cfg_id(cfg), {True: "ann", False: "plain", "odd": "odd"}[ann]), ob_schedule,
                                       {"cfg": cfg, "annotated": ann}, hard_timeout=150,
                                       sample={"rewrites": cfg, "annotated_line": ann}))
+    for cfg in _configs_three_numbers():
+        obs.append(Obligation("sched3/%s/plain" % cfg_id(cfg), ob_schedule, {"cfg": cfg, "annotated": False},
+                              hard_timeout=200, sample={"rewrites": cfg, "annotated_line": False}))
     c3 = _configs(3)
     if tier == "quick":
         pick = rnd.sample(c3, 40)
